@@ -61,6 +61,21 @@ func (c *cbConsumer) callback(b *common.Beacon, closed bool) {
 	}
 }
 
+// streamAdder is the registration a stream handler uses on a tree whose callbackStore knows stream consumers
+// (AddStreamCallback: Put never waits for such a consumer, it ends it when its queue is full). On a tree without it a
+// stream handler registers with AddCallback, and so does the engine.
+type streamAdder interface {
+	AddStreamCallback(id string, fn beacon.CallbackFunc)
+}
+
+func addStreamCallback(st beacon.CallbackStore, id string, fn beacon.CallbackFunc) {
+	if sa, ok := st.(streamAdder); ok {
+		sa.AddStreamCallback(id, fn)
+		return
+	}
+	st.AddCallback(id, fn)
+}
+
 type cbSUT struct {
 	top   beacon.CallbackStore
 	ctx   context.Context
@@ -119,6 +134,21 @@ func (s *cbSUT) settled() bool {
 	return false
 }
 
+// noteEnded: a consumer whose job channel is no longer the one registered under its id has been ended by the store (its
+// queue was full) — wait hint only: no further job is expected for it beyond the close notice, which takes the place of
+// the beacon it did not get.
+func (s *cbSUT) noteEnded() {
+	for k, c := range s.cons {
+		if !c.active || strings.HasPrefix(k, "pending:") || strings.HasPrefix(k, "old") {
+			continue
+		}
+		cur := beacon.VerifJobChanOf(s.top, c.id)
+		if mine := c.jobs.Load(); mine != nil && (cur == nil || !cur.Same(mine)) {
+			c.active = false
+		}
+	}
+}
+
 func (s *cbSUT) free() {
 	// let every blocked goroutine go
 	for _, c := range s.cons {
@@ -130,7 +160,7 @@ func (s *cbSUT) free() {
 
 // cbstore
 //
-//	init | add <id> <fast|gate> | remove <id> | put | release <id> <n> | wait | got <id> | last | qlen <id>
+//	init | add <id> <fast|gate> (a callback of the node itself) | adds <id> <fast|gate> (a stream handler's) | remove <id> | put | release <id> <n> | wait | got <id> | last | qlen <id>
 func cbstoreEngine(_ []string, in *bufio.Scanner, out *bufio.Writer) {
 	var s *cbSUT
 	for in.Scan() {
@@ -150,7 +180,7 @@ func cbstoreEngine(_ []string, in *bufio.Scanner, out *bufio.Writer) {
 				return "bad-state"
 			}
 			switch f[0] {
-			case "add":
+			case "add", "adds":
 				if s.wCh != nil {
 					return "bad-state"
 				}
@@ -161,7 +191,11 @@ func cbstoreEngine(_ []string, in *bufio.Scanner, out *bufio.Writer) {
 				done := make(chan bool, 1)
 				old := s.cons[f[1]]
 				go func() {
-					s.top.AddCallback(f[1], c.callback)
+					if f[0] == "adds" {
+						addStreamCallback(s.top, f[1], c.callback)
+					} else {
+						s.top.AddCallback(f[1], c.callback)
+					}
 					c.jobs.Store(beacon.VerifJobChanOf(s.top, f[1]))
 					done <- true
 				}()
@@ -233,6 +267,7 @@ func cbstoreEngine(_ []string, in *bufio.Scanner, out *bufio.Writer) {
 						return "err:" + strings.ReplaceAll(err.Error(), " ", "_")
 					}
 					s.head = r
+					s.noteEnded()
 					s.settled()
 					return fmt.Sprintf("ok %d", r)
 				case <-time.After(watchdog()):
@@ -263,6 +298,7 @@ func cbstoreEngine(_ []string, in *bufio.Scanner, out *bufio.Writer) {
 						if err != nil {
 							return "err:" + strings.ReplaceAll(err.Error(), " ", "_")
 						}
+						s.noteEnded()
 					case <-deadline:
 						return "still-blocked"
 					}
